@@ -160,7 +160,7 @@ func verifHarnessC11Jitter() {
 	client := &verifClient{}
 	s := verifSymStore(0, client, nil)
 	interval := time.Duration(nondetI64("interval"))
-	assume(and(interval >= 5, interval < 1<<62)) // below 5ns rand.Intn(0) panics, above 2^62 the doubling overflows: stated bounds
+	assume(interval > 0) // every positive interval: a few nanoseconds and "practically never" (MaxInt64) included
 	var got time.Duration
 	ticks := 0
 	tick := &verifTicker{}
@@ -170,7 +170,8 @@ func verifHarnessC11Jitter() {
 	s.run(ctx, interval, done)
 	assert("one-ticker", ticks == 1)
 	tenth := interval / 10
-	assert("within-ten-percent", and(got >= interval-tenth, got <= interval+tenth))
+	assert("ticker-period-is-positive", got > 0)
+	assert("within-ten-percent", and(got-interval >= -tenth, got-interval <= tenth)) // differences: interval+tenth itself may overflow
 	assert("ticker-stopped", tick.stopped)
 	reach("end")
 }
